@@ -84,8 +84,13 @@ Definition harmless (c : construct) : bool :=
   | _ => false
   end.
 
+(* the function field of an allow-list item may be "*": any function of that
+   file (used for constructs whose text identifies them whatever helper they
+   are moved to, e.g. the pickles of the --cache option) *)
+Definition func_matches (af ef : string) : bool := String.eqb af "*" || String.eqb af ef.
+
 Definition allow_matches (e : entry) (a : allowed) : bool :=
-  String.eqb (a_file a) (e_file e) && String.eqb (a_func a) (e_func e)
+  String.eqb (a_file a) (e_file e) && func_matches (a_func a) (e_func e)
   && String.eqb (a_text a) (e_text e).
 
 Definition reason_given (a : allowed) : bool :=
